@@ -19,6 +19,9 @@ GEN = os.path.join(THEORIES, 'Gen')
 PY = '/venv/bin/python'
 sys.path.insert(0, os.path.join(VERIF, 'tools', 'py2coq'))
 
+SIGTERMS_RECEIVED = []      # times at which the check process itself was sent SIGTERM (see harness/run.py)
+SIGTERM_GUARD = [False]     # True while a scenario watches for a SIGTERM sent by the implementation to its caller
+
 FORBIDDEN = re.compile(r'\b(Admitted|admit|Axiom|Axioms|Parameter|Parameters|Conjecture|Conjectures|'
                        r'Unset\s+Guard|bypass_check|Admit\s+Obligations|type-in-type|Hypothesis\b(?![^.]*\.)|native_compute)\b')
 # standard-library axioms a development may rely on (none is needed so far)
